@@ -9,8 +9,10 @@ HERE = os.path.dirname(os.path.dirname(os.path.abspath(__file__)))
 TEST = ["/venv/bin/python", "-m", "pytest", "-q", "-p", "no:cacheprovider", "--timeout=900", "--continue-on-collection-errors"]
 
 def main(props):
+    root = os.environ.get("SEED_OUT", "/tmp/seed/out")
+    offset = int(os.environ.get("SEED_OFFSET", "0"))
     for prop in props:
-        src = "/tmp/seed/out/%s" % prop
+        src = "%s/%s" % (root, prop)
         for k in sorted(f[:-5] for f in os.listdir(src) if f.endswith(".diff")):
             tmp = tempfile.mkdtemp(prefix="intake.")
             wt = os.path.join(tmp, "wt")
@@ -26,7 +28,7 @@ def main(props):
                 print(prop, k, "tests:", tail)
                 if not ok:
                     continue
-                dst = os.path.join(HERE, "seeded", prop, k)
+                dst = os.path.join(HERE, "seeded", prop, str(int(k) + offset))
                 os.makedirs(dst, exist_ok=True)
                 shutil.copy(os.path.join(src, k + ".diff"), os.path.join(dst, "patch.diff"))
                 shutil.copy(os.path.join(src, k + ".demo.md"), os.path.join(dst, "demo.md"))
